@@ -1,7 +1,7 @@
 import os
 import sys
 
-from ckl.errors import CklRuntimeError
+from ckl.errors import CklRuntimeError, HOST_ERRORS, as_runtime_error
 from ckl.parser import parse_script
 from ckl.functions import (
     get_base_environment,
@@ -52,7 +52,10 @@ class Interpreter:
                 environment_.withParent(self.environment)
             env = environment
         try:
-            result = parse_script(script, filename).evaluate(env)
+            try:
+                result = parse_script(script, filename).evaluate(env)
+            except HOST_ERRORS as e:
+                raise as_runtime_error(e)
             if result.isReturn():
                 return result.value
             elif result.isBreak():
